@@ -218,13 +218,38 @@ func init() {
 					if !isNilConst(r.Results[0]) {
 						continue
 					}
-					fs := canonFacts(r.Block())
-					for k := range fs {
-						if strings.Contains(k, "LoadInt64(") && strings.HasSuffix(k, ".specificItems[{any}]#0") && strings.Contains(k, " <= ") && fs["{baseTrafficShapingController}.specificItems[{any}]#1"] {
-							okSpec = true
+					base := canonFacts(r.Block())
+					for _, ft := range condFacts(r.Block()) {
+						bo, ok := ft.Cond.(*ssa.BinOp)
+						if !ok || !isComparison(bo.Op) {
+							continue
 						}
-						if strings.Contains(k, "LoadInt64(") && strings.HasSuffix(k, " <= {baseTrafficShapingController}.threshold") && fs["!{baseTrafficShapingController}.specificItems[{any}]#1"] {
-							okGen = true
+						// in-flight+1 <= T (in any spelling): find the side that is not the gauge
+						k := canonCond(bo, ft.Truth)
+						if !strings.Contains(k, "LoadInt64(") || !strings.Contains(k, " <= ") {
+							continue
+						}
+						var t ssa.Value
+						if strings.Contains(accessPath(bo.X), "LoadInt64(") {
+							t = bo.Y
+						} else {
+							t = bo.X
+						}
+						if !strings.HasPrefix(k, "(") && !strings.Contains(strings.SplitN(k, " <= ", 2)[0], "LoadInt64(") {
+							continue // the gauge must be on the small side
+						}
+						for _, cs := range splitPhiCases(t, bo.Block(), nil, 0) {
+							p := accessPath(cs.val)
+							fs := canonFacts(cs.block, cs.extra...)
+							for kk := range base {
+								fs[kk] = true
+							}
+							if strings.HasSuffix(p, ".specificItems[{any}]#0") && fs["{baseTrafficShapingController}.specificItems[{any}]#1"] {
+								okSpec = true
+							}
+							if strings.HasSuffix(p, "{baseTrafficShapingController}.threshold") && fs["!{baseTrafficShapingController}.specificItems[{any}]#1"] {
+								okGen = true
+							}
 						}
 					}
 				}
@@ -294,59 +319,63 @@ func init() {
 
 	register(&Rule{
 		ID: "hotspot.extract-order", Props: []string{"C05"}, Floor: 3,
-		Doc: "ExtractArgs consults the attachment key first and the positional index only when that yields nil; extractArgs maps a negative index by len(args)+idx and indexes the argument list only under 0 <= idx < len(args)",
+		Doc: "ExtractArgs (with the helpers it calls: they are inlined before analysis, whatever they are called) consults the attachment key first and the positional index only when that yields nil; a negative index is mapped by len(args)+idx and the argument list is indexed only under 0 <= idx < len(args)",
 		Run: func(c *Ctx) {
 			ex := c.P.Func(hsPkg + ".(*baseTrafficShapingController).ExtractArgs")
-			att := c.P.Func(hsPkg + ".(*baseTrafficShapingController).extractAttachmentArgs")
-			pos := c.P.Func(hsPkg + ".(*baseTrafficShapingController).extractArgs")
-			if ex == nil || att == nil || pos == nil {
-				c.AnchorLost("hotspot ExtractArgs family")
+			if ex == nil {
+				c.AnchorLost("hotspot ExtractArgs")
 				return
 			}
-			var ca, cp ssa.CallInstruction
-			for _, ci := range callsIn(ex) {
-				if isStaticCallTo(ci, att) {
-					ca = ci
-				}
-				if isStaticCallTo(ci, pos) {
-					cp = ci
-				}
-			}
-			if ca == nil || cp == nil {
-				c.Violate(fnKey(ex)+" / sources", ex.Pos(), "ExtractArgs must consult both the attachment key and the positional index")
-			} else {
-				fs := canonFacts(cp.Block())
-				ap := accessPath(ca.(ssa.Value))
-				ok := instrDominates(ca.(ssa.Instruction), cp.(ssa.Instruction)) && (fs[ap+" == nil"] || fs["nil == "+ap])
-				c.Check(ok, fnKey(ex)+" / attachment-first", cp.Pos(), "positional lookup only after the attachment lookup returned nil: %v", ok)
+			scope := withNewHelpers([]*ssa.Function{ex})
+			// attachment lookup keyed by paramKey
+			var look *ssa.Lookup
+			m := 0
+			for _, f := range scope {
+				eachInstr(f, func(ins ssa.Instruction) {
+					lk, ok := ins.(*ssa.Lookup)
+					if !ok || !strings.HasSuffix(accessPath(lk.X), "{EntryContext}.Input.Attachments") {
+						return
+					}
+					m++
+					look = lk
+					c.Check(accessPath(resolve(lk.Index)) == "{baseTrafficShapingController}.paramKey", fmt.Sprintf("%s / lookup#%d", fnKey(ex), m), lk.Pos(), "attachment looked up by the rule's paramKey")
+				})
 			}
 			n := 0
-			eachInstr(pos, func(ins ssa.Instruction) {
-				ia, ok := ins.(*ssa.IndexAddr)
-				if !ok || !strings.HasSuffix(accessPath(ia.X), "{EntryContext}.Input.Args") {
-					return
-				}
-				n++
-				ip := accessPath(ia.Index)
-				fs := canonFacts(ia.Block())
-				lo := fs["0 <= "+ip]
-				hi := fs[ip+" < builtin len({EntryContext}.Input.Args)"]
-				neg := strings.Contains(ip, "(builtin len({EntryContext}.Input.Args) + {baseTrafficShapingController}.BoundParamIndex())") || strings.Contains(ip, "(builtin len({EntryContext}.Input.Args) + {baseTrafficShapingController}.paramIndex)")
-				c.Check(lo && hi && neg, fmt.Sprintf("%s / index#%d", fnKey(pos), n), ia.Pos(), "args[%s] under 0<=idx (%v), idx<len(args) (%v), negative index mapped by len+idx (%v)", ip, lo, hi, neg)
-			})
-			if n == 0 {
-				c.Violate(fnKey(pos)+" / index", pos.Pos(), "extractArgs no longer indexes the argument list")
+			for _, f := range scope {
+				eachInstr(f, func(ins ssa.Instruction) {
+					ia, ok := ins.(*ssa.IndexAddr)
+					if !ok || !strings.HasSuffix(accessPath(ia.X), "{EntryContext}.Input.Args") {
+						return
+					}
+					n++
+					ip := accessPath(ia.Index)
+					fs := canonFacts(ia.Block())
+					lo := fs["0 <= "+ip]
+					hi := fs[ip+" < builtin len({EntryContext}.Input.Args)"]
+					neg := false
+					for _, idx := range []string{"{baseTrafficShapingController}.BoundParamIndex()", "{baseTrafficShapingController}.paramIndex"} {
+						if strings.Contains(ip, "(builtin len({EntryContext}.Input.Args) + "+idx+")") || strings.Contains(ip, "("+idx+" + builtin len({EntryContext}.Input.Args))") {
+							neg = true
+						}
+					}
+					c.Check(lo && hi && neg, fmt.Sprintf("%s / index#%d", fnKey(ex), n), ia.Pos(), "args[%s] under 0<=idx (%v), idx<len(args) (%v), negative index mapped by len+idx (%v)", ip, lo, hi, neg)
+					// positional lookup only after the attachment lookup yielded nil
+					if look != nil && f == look.Parent() {
+						after := !instrReaches(ia, look) && instrReaches(look, ia)
+						nilFact := false
+						for k := range fs {
+							if strings.Contains(k, ".Input.Attachments") && (strings.HasSuffix(k, " == nil") || strings.HasPrefix(k, "nil == ")) {
+								nilFact = true
+							}
+						}
+						c.Check(after && nilFact, fmt.Sprintf("%s / attachment-first#%d", fnKey(ex), n), ia.Pos(), "positional lookup only after the attachment lookup (%v) and under 'attachment value == nil' (%v)", after, nilFact)
+					}
+				})
 			}
-			// attachment lookup keyed by paramKey
-			m := 0
-			eachInstr(att, func(ins ssa.Instruction) {
-				lk, ok := ins.(*ssa.Lookup)
-				if !ok {
-					return
-				}
-				m++
-				c.Check(strings.HasSuffix(accessPath(lk.X), "{EntryContext}.Input.Attachments") && accessPath(stripConv(lk.Index)) == "{baseTrafficShapingController}.paramKey", fmt.Sprintf("%s / lookup#%d", fnKey(att), m), lk.Pos(), "attachment looked up by the rule's paramKey")
-			})
+			if n == 0 || m == 0 {
+				c.Violate(fnKey(ex)+" / sources", ex.Pos(), "ExtractArgs must consult both the attachment key (%d lookups) and the positional index (%d)", m, n)
+			}
 		},
 	})
 
